@@ -20,6 +20,7 @@ def run(ctx, res):
     res.rule = ('the typed case space of C01 (see harness/c01.py) compared byte-for-byte with the extracted specification '
                 'encoder in the requested byte order, the opposite-order specification bytes decoded by the implementation, '
                 'plus every (type code, offset 0..63) pair for the alignment rule')
+    c01.evaluate_nonconforming(ctx, res)
     c01.evaluate_large(ctx, [{'kind': 'large', 'array_bytes': nb, 'le': le} for nb in (2 ** 26 - 4, 2 ** 26) for le in (True, False)], res)
     c01.evaluate(ctx, c01.gen_cases(ctx), res, prop='C02')
     c01.pad_table_cases(res)
